@@ -35,10 +35,13 @@ func TestVerif(t *testing.T) {
 		verifC16Prepared(t, r, out)
 	case "C13":
 		verifC13(t, r, out)
+		verifPrepared(t, out, "C13")
 	case "C14":
 		verifC14(t, r, out)
+		verifPrepared(t, out, "C14")
 	case "C15":
 		verifC15(t, r, out)
+		verifPrepared(t, out, "C15")
 	default:
 		t.Fatalf("unknown VERIF_PROP %q for package plugin", prop)
 	}
